@@ -29,7 +29,7 @@ DEVS = {"Dev_RetryNonIdempotent": "AtMostOnce", "Dev_RetryFraming": "FramingNotR
         "Dev_KeepAfterCloseSignal": "NoReuse", "Dev_KeepAfterSurplus": "NoReuse", "Dev_KeepAfterFailure": "NoReuse",
         "Dev_BudgetOffByOne": "AttemptBound", "Dev_PossiblySentIsNotSent": "AtMostOnce",
         "Dev_CaseFoldMethod": "AtMostOnce", "Dev_NoRecvTimeout": "NoStuck", "Dev_ClampedBodyRead": "NoReuse",
-        "Dev_IdleBytesKept": "OwnResponse"}
+        "Dev_IdleBytesKept": "OwnResponse", "Dev_BackoffClampsAttempt": "AttemptBound"}
 ACTIONS = ["Start", "AcquireLease", "Reuse", "EvictIdle", "Miss", "ConnectFails", "ConnectResetEarly", "ConnectOk",
            "SetSyncMode", "SendStale", "PickCached", "Send", "RecvFails", "RecvOk", "RetryDecision", "Finish"]
 RT = 400          # requestTimeout of the client under test (ms); connectTimeout 200
@@ -84,6 +84,11 @@ def configs(thorough):
         # every success variant (keep-alive, close signals, surplus, close-delimited ...) of every method followed by a request
         dict(name="taint", callers=[1], nreq=2, methods=ALLM, budgets=[0], steps=SUCCESS, oktail=[OK], maxfk=1, reuse=True,
              idle=False, take=None, later_methods=["GET", "POST"], later_steps=[OK]),
+        # the budget dimension beyond 2: every attempt fails after the request was sent (or before: refused), budgets up to 8;
+        # the back-off of the calling thread is divided by 20 (interposed nanosleep) so that 100*2^a ms stays affordable
+        dict(name="budget", callers=[1], nreq=1, methods=["GET", "PUT", "POST"], budgets=[0, 1, 2, 3, 4, 5, 6, 8],
+             steps=[OK, S("full_close"), S("resp_close", "cl", "body"), S("refused")], oktail=[OK], maxfk=1, reuse=True,
+             idle=False, take=None, bo=20, rep=1),
         dict(name="single2", callers=[1], nreq=1, methods=["GET", "POST"], budgets=[2], steps=SEQ2, oktail=[OK],
              maxfk=2, reuse=True, idle=False, take=q(120, None)),
         dict(name="seq2", callers=[1], nreq=2, methods=["GET", "POST"], budgets=[0, 1], steps=SEQ2, oktail=[OK],
@@ -139,6 +144,10 @@ def case_of(script, c):
     body = " | ".join("%s %d %d %s" % (rq["m"], rq["b"], rq["pre"], ";".join(step_text(s) for s in rq["steps"]) or "-")
                       for rq in reqs)
     head = "reuse=%d rt=%d idle=%d conc=%d" % (1 if c["reuse"] else 0, RT, 1 if c["idle"] else 0, 1 if len(c["callers"]) > 1 else 0)
+    if c.get("bo", 1) != 1:
+        head += " bo=%d" % c["bo"]
+    if c.get("rep"):
+        head += " rep=1"     # the peer repeats its last step beyond the script: a never-ending retry loop stays never-ending
     pred = [[rq["res"], [x for x in rq["conns"] if x != 0]] for rq in reqs]
     return head + " | " + body, pred
 
@@ -380,6 +389,7 @@ def selftest_trace_spec(ck):
         ("lower-case get: twice on the wire and over budget", "AtMostOnce",
          [B, call(1, "get", 0), cc(1, 1), sr(1, 1), cc(2, 1), sr(2, 1), ret(1), E]),
         ("budget + 2 attempts", "AttemptBound", [B, call(1, "GET", 1), cc(1, 1, "refused"), cc(2, 1, "refused"), cc(3, 1), sr(3, 1), ret(1), E]),
+        ("budget 5, a 7th attempt", "AttemptBound", [B, call(1, "GET", 5)] + [x for c in range(1, 8) for x in (cc(c, 1), sr(c, 1))] + [ret(1), E]),
         ("retry after framing error", "FramingNotRetried", [B, call(1, "GET", 2), cc(1, 1), sr(1, 1), ta(1, "framing", 1), cc(2, 1), sr(2, 1), ret(1), E]),
         ("reuse after close signal", "NoReuse", [B, call(1, "GET", 0), cc(1, 1), sr(1, 1), ta(1, "close_signal", 1), ret(1),
                                                  call(2, "GET", 0), sr(1, 2), ret(2), E]),
@@ -420,8 +430,11 @@ def selftest_devs(ck):
                        S("ok_then_fin"), S("refused"), S("acc_rst"),
                        S("send_fail", "-", "zero"), S("req_close", "-", "first"), S("full_close"), S("silence"), S("bad", "cl_te")])
 
+    # the clamped attempt counter only shows for budgets >= 5 (and makes the state space infinite: TLC stops at the violation)
+    big = dict(base, name="devbig", budgets=[5, 6], methods=["GET"], nreq=1, steps=[OK, S("full_close")])
+
     def go(dv):
-        tla_path, cfg = write_mc(ck, base, devs=[dv], emit=False, tag="_" + dv)
+        tla_path, cfg = write_mc(ck, big if dv == "Dev_BackoffClampsAttempt" else base, devs=[dv], emit=False, tag="_" + dv)
         return dv, tlc(tla_path, cfg, tag="C17_" + dv, workers=2, lib_dirs=[SPECDIR], xmx="2g")
     with cf.ThreadPoolExecutor(max_workers=5) as ex:
         for dv, r in ex.map(go, list(DEVS)):
